@@ -59,13 +59,17 @@ func (cs *ContractStore) Delete(prefix []byte, key []byte) (bool, error) {
 }
 
 func (cs *ContractStore) Iterate(prefix []byte, fn func(key []byte, value []byte) bool) (stop bool) {
-	prefixKey := append(cs.prefix, prefix...)
-	return cs.State.IterateRange(
-		prefixKey,
-		storage.Rangefix(string(prefixKey)),
-		true,
-		fn,
-	)
+	prefixKey := append(append([]byte(nil), cs.prefix...), prefix...)
+	// the end of the range is the successor of the prefix (keys are binary: storage.Rangefix's "~" would
+	// cut off every key whose next byte is >= 0x7e)
+	end := append([]byte(nil), prefixKey...)
+	for i := len(end) - 1; i >= 0; i-- {
+		end[i]++
+		if end[i] != 0 {
+			break
+		}
+	}
+	return cs.State.IterateRange(prefixKey, end, true, fn)
 }
 
 // AddressStoragePrefix returns a prefix to iterate over a given account storage.
